@@ -329,6 +329,13 @@ func (db *MultiBucketBackend) ForceDeleteBucket(name string) error {
 }
 
 func (db *MultiBucketBackend) BucketExists(name string) (exists bool, err error) {
+	if err := gofakes3.ValidateBucketName(name); err != nil {
+		// Only valid bucket names are buckets (as in ListBuckets and ListBucket):
+		// ".", ".." or a name with a path separator would otherwise resolve to
+		// the buckets directory itself, its parent or a nested directory.
+		return false, nil
+	}
+
 	db.lock.Lock()
 	defer db.lock.Unlock()
 	exists, err = afero.Exists(db.bucketFs, name)
